@@ -201,7 +201,8 @@ impl DbInner {
 	fn open(options: &Options, opening_mode: OpeningMode) -> Result<DbInner> {
 		if opening_mode == OpeningMode::Create {
 			try_io!(std::fs::create_dir_all(&options.path));
-		} else if !options.path.is_dir() {
+		} else if !options.path.is_dir() || !options.path.join("metadata").is_file() {
+			// Nothing to open: report it before creating the lock file.
 			return Err(Error::DatabaseNotFound)
 		}
 
